@@ -29,8 +29,9 @@ ASSUMPTIONS = [
     "reader contract: each poll returns the frames completed since the last poll, in order (C13); after the process has exited "
     "the next poll returns everything left",
     "process contract: poll() returns None until exit, then the return code; killpg/wait/sleep are recorded no-ops",
-    "CP2K: two readers (positions, velocities) deliver independent batch sizes; ASE / TurtleMD in-process loops and the GROMACS "
-    "runner follow the same add_to_path rule (1) but their loops are not executed here (stated as outside)",
+    "CP2K: two readers (positions, velocities) deliver independent batch sizes; ASE: the in-process loop runs with fake Atoms / "
+    "calculator / integrator / Trajectory objects (the calculator lives on the engine across propagations); the TurtleMD loop and "
+    "the ASE/TurtleMD numerics are not executed here",
 ]
 KNOWN_BOX = "C12-lammps-box-of-last-ready-frame"
 KNOWN_GMX = "C12-gromacs-backward-velocities-negated-twice"
@@ -65,15 +66,16 @@ def instances(tier, prop):
             out.append({"kind": "lammps", "F": F, "reverse": reverse, "rc": rc, "_cost": 4 ** F, "_splitbits": 3})
             out.append({"kind": "cp2k", "F": F - 1, "reverse": reverse, "rc": rc, "_cost": 9 ** F, "_splitbits": 4})
         out.append({"kind": "gromacs", "F": F, "reverse": reverse, "_cost": 3 ** F})
+    out.append({"kind": "ase", "F": F - 1, "_cost": 9 ** F})
     return out
 
 
-EXPECT = ["gromacs:stopped", "gromacs:exhausted", "cp2k:killed", "cp2k:ran-to-completion", "cp2k:raised", "cp2k:uneven-batches", "add:stop-outside", "add:stop-limit", "add:continue", "add:refused", "prelude:reversed", "prelude:kept",
+EXPECT = ["ase:two-propagations", "gromacs:stopped", "gromacs:exhausted", "cp2k:killed", "cp2k:ran-to-completion", "cp2k:raised", "cp2k:uneven-batches", "add:stop-outside", "add:stop-limit", "add:continue", "add:refused", "prelude:reversed", "prelude:kept",
           "lammps:killed", "lammps:ran-to-completion", "lammps:raised", "lammps:batch>1"]
 
 
 def run_instance(ctx, sh):
-    return {"add": _add, "prelude": _prelude, "lammps": _lammps, "cp2k": _cp2k, "gromacs": _gromacs}[sh["kind"]](ctx, sh)
+    return {"add": _add, "prelude": _prelude, "lammps": _lammps, "cp2k": _cp2k, "gromacs": _gromacs, "ase": _ase}[sh["kind"]](ctx, sh)
 
 
 # ------------------------------------------------------------------------------------------------ (1) add_to_path
@@ -626,3 +628,126 @@ def _gromacs(ctx, sh):
     else:
         ctx.check(n == F and not success, "C12:all-frames-of-a-completed-run-are-returned", f"{n} of {F}")
         ctx.cover("gromacs:exhausted")
+
+
+# ------------------------------------------------------------------------------------------------ (3d) ASE in-process loop
+def _ase(ctx, sh):
+    """ASEEngine._propagate_from with a fake Atoms/calculator/integrator/Trajectory: two propagations on the SAME engine (the
+    calculator object lives on the engine and keeps its results between calls). Frame k of each propagation must be written
+    with, and integrated from, the energy/forces of configuration k of that propagation."""
+    import infretis.classes.engines.ase_engine as iase
+    F = sh["F"]
+    left, right = ctx.real("left"), ctx.real("right")
+    ctx.assume(ctx.rel(left, "<", right))
+    maxlen = ctx.int("maxlen", 2, F + 1)
+    log = {"written": [], "steps": [], "order_calls": []}
+
+    class _Cell:
+        def diagonal(self):
+            return np.full(3, 100.0)
+
+    class _Atoms:
+        def __init__(self, run):
+            self.run, self.state, self.calc, self.cell = run, 0, None, _Cell()
+
+        @property
+        def positions(self):
+            return np.full((1, 3), 10.0 + self.state + 100.0 * self.run)
+
+        def get_velocities(self):
+            return np.full((1, 3), 1.0 + self.state)
+
+        def get_kinetic_energy(self):
+            return float(self.state)
+
+    class _Calc:
+        def __init__(self):
+            self.results = {}
+
+        def calculate(self, atoms):
+            self.results = {"energy": ("E", atoms.run, atoms.state), "forces": ("F", atoms.run, atoms.state)}
+
+    class _Dyn:
+        def __init__(self, atoms, **k):
+            self.atoms = atoms
+
+        def step(self, forces=None):
+            log["steps"].append((self.atoms.run, self.atoms.state, forces))
+            self.atoms.state += 1
+            self.atoms.calc.calculate(self.atoms)
+
+    class _Traj:
+        def __init__(self, f, mode):
+            self.f = f
+
+        def write(self, atoms, forces=None, energy=None, stress=None):
+            log["written"].append((atoms.run, atoms.state, forces, energy))
+
+        def close(self):
+            pass
+
+    class _OF:
+        velocity_dependent = False
+
+        def calculate(self, system):
+            run, k = divmod(int(round(float(system.pos[0, 0]) - 10.0)), 100)
+            log["order_calls"].append((run, k))
+            return [ctx.real(f"ord{run}_{k}")]
+    e = iase.ASEEngine.__new__(iase.ASEEngine)
+    ibase.EngineBase.__init__(e, "bare-ase", 1.0, 1)
+    e._exe_dir, e.subcycles, e.calc, e.Integrator, e.integrator_settings = "/exe", 1, _Calc(), _Dyn, {}
+    e.order_function = _OF()
+    runs = {"n": 0}
+
+    def fake_read(f):
+        a = _Atoms(runs["n"])
+        runs["n"] += 1
+        return a
+    saved = {k: getattr(iase, k) for k in ("read", "Trajectory")}
+    iase.read, iase.Trajectory = fake_read, _Traj
+    results = []
+    try:
+        for run, reverse in enumerate((False, True)):
+            system = System()
+            system.config = (f"/exe/conf{run}.traj", 0)
+            system.vel_rev = reverse
+            path = Path(maxlen=maxlen)
+            try:
+                ok, status = e._propagate_from(f"name{run}", path, system, {"interfaces": (left, (left + right) / 2, right)},
+                                               _MsgFile(), reverse=reverse)
+            except core.Inconclusive:
+                raise
+            except (core._Abort, core._Stop, core._Skip):
+                raise
+            except Exception as ex:
+                core.reraise_if_proxy_limitation(ex)
+                ctx.fail("C12:no-unexpected-exception", repr(ex))
+            results.append((path, ok))
+    finally:
+        for k, v in saved.items():
+            setattr(iase, k, v)
+    for run, (path, ok) in enumerate(results):
+        wr = [w for w in log["written"] if w[0] == run]
+        st = [s for s in log["steps"] if s[0] == run]
+        ctx.check(len(wr) == path.length, "C12:trajectory-file-holds-exactly-the-path-frames", f"run {run}: {len(wr)} vs {path.length}")
+        for k, pp in enumerate(path.phasepoints):
+            ctx.check(pp.config == (f"/exe/name{run}.traj", k), "C12:frame-k-references-configuration-k", f"{pp.config}")
+            ctx.check(wr[k][1] == k and wr[k][2] == ("F", run, k) and wr[k][3] == ("E", run, k),
+                      "C12:frame-k-is-written-with-the-energy-and-forces-of-configuration-k",
+                      f"run {run} frame {k}: written with {wr[k][2]}, {wr[k][3]}")
+            ctx.check(bool(pp.order[0] == ctx.real(f"ord{run}_{k}")), "C12:stored-order-is-the-one-computed-for-that-frame")
+        for s in st:
+            ctx.check(s[2] == ("F", run, s[1]), "C12:each-integration-step-starts-from-the-forces-of-its-own-configuration",
+                      f"run {run}: step from configuration {s[1]} used forces {s[2]}")
+        stop_at = None
+        for k in range(F + 1):
+            o = ctx.real(f"ord{run}_{k}")
+            if (o < left) or (o > right) or (k + 1 == maxlen):
+                stop_at = k
+                break
+        ctx.check(stop_at is not None and path.length == stop_at + 1, "C12:stops-at-the-first-frame-outside-or-at-the-limit",
+                  f"run {run}: {path.length}")
+        if stop_at is not None:
+            o = ctx.real(f"ord{run}_{stop_at}")
+            ctx.check(ok == ((o < left) or (o > right)), "C12:success-only-when-stopped-by-an-interface", f"{ok}")
+    ctx.cover("ase:two-propagations")
